@@ -824,55 +824,20 @@ def check_add_gate(idx: Index, rep: Report):
     rule = "K6.add_gate"
     f = idx.function(f"{CIRCUIT}::Circuit.add_gate")
     cfg = CFG(f.node)
-    # --- summaries updated on every normal path
+    # --- the stores into the circuit's state
     upd: Dict[str, List[ast.AST]] = {}
     for n in own_nodes(f.node):
         fld = None
-        if isinstance(n, ast.Call) and isinstance(n.func, ast.Attribute) and n.func.attr in ("append", "add") and \
+        if isinstance(n, ast.Call) and isinstance(n.func, ast.Attribute) and n.func.attr in ("append", "add", "update", "extend", "insert", "setdefault") and \
                 isinstance(n.func.value, ast.Attribute) and norm(n.func.value.value) == "self":
             fld = n.func.value.attr
         elif isinstance(n, ast.Subscript) and isinstance(n.ctx, ast.Store) and isinstance(n.value, ast.Attribute) and norm(n.value.value) == "self":
             fld = n.value.attr
         if fld:
             upd.setdefault(fld, []).append(n)
-    for fld in ("_gates", "_qubit_indices", "_gate_counts", "_n_qubit_gate_counts", "_variational_gates"):
-        if fld not in upd:
-            rep.violation(rule, f, f.node, text=f"update of {fld}", what=f"add_gate updates {fld}", reason=f"add_gate no longer updates {fld}")
-            continue
-        node = upd[fld][0]
-        nid = cfg.node_for(node)
-        if fld == "_variational_gates":
-            g = _enclosing_if(f, node)
-            ok = g is not None and norm(g.test) in ("gate.is_variational", "g.is_variational") and \
-                cfg.must_pass_through(cfg.entry.id, cfg.return_exit.id, [cfg.node_for(g)])
-            rep.decide(ok, rule, f, node, text="_variational_gates under is_variational",
-                       what="a variational gate is recorded as such on every normal path",
-                       reason="the variational list is not updated exactly when the gate is variational")
-        elif fld == "_qubit_indices":
-            loop = _enclosing_for(f, node)
-            ok = loop is not None and cfg.must_pass_through(cfg.entry.id, cfg.return_exit.id, [cfg.node_for(loop)])
-            src = _inline(f, loop.iter) if loop is not None else None
-            names = {n.attr for n in ast.walk(src) if isinstance(n, ast.Attribute)} if src is not None else set()
-            ok = ok and {"target", "control"} <= names
-            rep.decide(ok, rule, f, node, text="_qubit_indices over target+control",
-                       what="every target and control index of the added gate enters the index set on every normal path",
-                       reason=f"index set updated from {norm(src) if src is not None else '?'} (must cover target and control)")
-        else:
-            ok = cfg.must_pass_through(cfg.entry.id, cfg.return_exit.id, [nid])
-            rep.decide(ok, rule, f, node, text=f"update of {fld}", what=f"{fld} updated on every normal path of add_gate",
-                       reason=f"a normal path through add_gate skips the update of {fld}")
-    # --- keys: counts keyed by the gate name, arity count from target+control
-    for n in upd.get("_gate_counts", [])[:1]:
-        key = norm(n.slice)
-        rep.decide(key in ("gate.name", "g.name"), rule, f, n, text=f"_gate_counts key {key}",
-                   what="per-name count keyed by the name of the added gate", reason=f"count keyed by {key}")
-        _check_increment(rep, f, n, "_gate_counts", rule)
-    for n in upd.get("_n_qubit_gate_counts", [])[:1]:
-        keyexpr = _inline(f, n.slice)
-        attrs = {x.attr for x in ast.walk(keyexpr) if isinstance(x, ast.Attribute)}
-        rep.decide({"target", "control"} <= attrs, rule, f, n, text=f"_n_qubit_gate_counts key {norm(keyexpr)[:80]}",
-                   what="the arity count uses targets plus controls", reason="arity key ignores targets or controls")
-        _check_increment(rep, f, n, "_n_qubit_gate_counts", rule)
+    # which summaries add_gate updates, under which keys and by how much is decided by the class-invariant fold (after every add_gate - and every other
+    # operation - the reported width, size, counts, per-arity counts and variational view equal the values recomputed from the gate list); what stays here is
+    # the ordering obligation that fold cannot see: nothing is written before the range check has passed
     # --- validate before mutate: no write to self.* can be followed by a raise of the range validation
     raise_sites = _raise_sites(f)
     muts = [n for lst in upd.values() for n in lst]
